@@ -607,6 +607,25 @@ fn shaped_block() -> impl Strategy<Value = Vec<(String, String)>> {
         // picture chunk (the frame also gets a binary part with probability 0.2, see `strategy`)
         (v(), v()).prop_map(|(size, ty)| vec![("size".to_string(), if size.is_empty() { "3".to_string() } else { size }), ("type".to_string(), ty)]),
         (v()).prop_map(|ty| vec![("size".to_string(), "3".to_string()), ("type".to_string(), ty)]),
+        // dated entries: 2-6 songs or playlists whose Last-Modified values come from the time edges (the same
+        // second written in many ways among them), everything else well-formed - so that the decoded
+        // timestamps exist and get compared with each other
+        (any::<bool>(), prop::collection::vec(prop_oneof![3 => (0..TIME_EDGES.len()).prop_map(|i| TIME_EDGES[i].to_string()), 1 => v()], 2..7usize)).prop_map(|(songs, stamps)| {
+            let mut out = Vec::new();
+            for (i, t) in stamps.into_iter().enumerate() {
+                if songs {
+                    out.push(("file".to_string(), format!("dir/{i}.flac")));
+                    out.push(("Last-Modified".to_string(), t));
+                    out.push(("Title".to_string(), format!("t{i}")));
+                    out.push(("Pos".to_string(), i.to_string()));
+                    out.push(("Id".to_string(), (i + 10).to_string()));
+                } else {
+                    out.push(("playlist".to_string(), format!("list {i}")));
+                    out.push(("Last-Modified".to_string(), t));
+                }
+            }
+            out
+        }),
         // stickers / channels / playlists
         prop::collection::vec((prop_oneof![Just("sticker"), Just("file"), Just("channel"), Just("message"), Just("playlist"), Just("Last-Modified"), Just("tagtype"), Just("size"), Just("type"), Just("Id"), Just("updating_db")], v()), 1..8usize)
             .prop_map(|x| x.into_iter().map(|(k, v)| (k.to_string(), v)).collect()),
